@@ -1,18 +1,22 @@
 /-
-  Proofs/RenderIsoHms.lean — token scan of `YYYY-MM-DD<sep>HH:MM:SS<offset>`, every offset spelling.
+  Proofs/RenderIsoHms.lean — token scan of `YYYY-MM-DD<sep>HH:MM:SS<offset>`, every offset spelling, through the schema
+  (scan over the core with an arbitrary suffix behind it + `suffix_run` + `finish_tz`).
 -/
 import DateutilVerif.Proofs.RenderIsoX
+import DateutilVerif.Proofs.RenderSchema
 
 namespace PM
 open Py PT
 
 set_option maxHeartbeats 4000000 in
-theorem tok_iso_hms (cls : Char → CClass) [AsciiOK cls] (yf : Bool) (year century : Int) (o : Opts) (tznames : List Token)
-    (tzi : TzInfos) (ho : PlainOpts o tzi) (dflt : DT) (y m d h mi s us : Nat) (S : Token) (hS : S = ['T'] ∨ S = [' '])
-    (hv : (DT.mk y m d h mi s us).Valid) (off : Off) (hoff : off.Dom) (hus : us = 0) :
-    parseResult cls (Info.default false yf year century) o tznames tzi dflt
-      (isoDateTokens y m d S ++ [dtok [h / 10, h], [':'], dtok [mi / 10, mi], [':'], dtok [s / 10, s]] ++ offTokens off) =
-      .ok { dt := DT.mk y m d h mi s us, tz := if o.ignoretz then .naive else offDescr tznames off, tokens := none } := by
+theorem run_iso_hms (cls : Char → CClass) [AsciiOK cls] (yf : Bool) (year century : Int) (y m d h mi s us : Nat) (S : Token)
+    (hS : S = ['T'] ∨ S = [' ']) (hv : (DT.mk y m d h mi s us).Valid)
+    (suf : List Token) (hs : Suf1 (Info.default false yf year century) suf) :
+    parseLoop cls (Info.default false yf year century) false (suf.length + 11) (suf.length + 11) 0 0
+      { l := isoDateTokens y m d S ++ [dtok [h / 10, h], [':'], dtok [mi / 10, mi], [':'], dtok [s / 10, s]] ++ suf } =
+    parseLoop cls (Info.default false yf year century) false (suf.length + 11) suf.length 11 0
+      { l := isoDateTokens y m d S ++ [dtok [h / 10, h], [':'], dtok [mi / 10, mi], [':'], dtok [s / 10, s]] ++ suf, ymd := { vals := [y, m, d], century := true, yIdx := some 0 },
+        skipped := [5], res := { hour := some h, minute := some mi, second := some s, microsecond := some 0 } } := by
   obtain ⟨⟨hy1, hy2, hm1, hm2, hd1, hd2⟩, hh1, hh2, hmi1, hmi2, hs1, hs2, hu1, hu2⟩ := hv
   dsimp only at *
   have hdim := (Cal.daysInMonth_bounds (y : Int) (m : Int)).2
@@ -22,6 +26,17 @@ theorem tok_iso_hms (cls : Char → CClass) [AsciiOK cls] (yf : Bool) (year cent
   have bh : h < 100 := by omega
   have bmi : mi < 100 := by omega
   have bs : s < 100 := by omega
+  generalize suf.length = k
+  rcases hS with rfl | rfl <;> rcases hs with rfl | ⟨a, rest, rfl, a1, a2, a3⟩ <;> psimpa [isoDateTokens]
+
+set_option maxHeartbeats 4000000 in
+theorem fin_iso_hms (yf : Bool) (year century : Int) (o : Opts) (tznames : List Token) (tzi : TzInfos) (ho : PlainOpts o tzi) (dflt : DT)
+    (y m d h mi s us : Nat) (hv : (DT.mk y m d h mi s us).Valid) (hus : us = 0) :
+    finishOf (Info.default false yf year century) o tznames tzi dflt { vals := [y, m, d], century := true, yIdx := some 0 }
+      { hour := some h, minute := some mi, second := some s, microsecond := some 0 } = .ok { dt := DT.mk y m d h mi s us, tz := .naive, tokens := none } := by
+  obtain ⟨⟨hy1, hy2, hm1, hm2, hd1, hd2⟩, hh1, hh2, hmi1, hmi2, hs1, hs2, hu1, hu2⟩ := hv
+  dsimp only at *
+  have hdim := (Cal.daysInMonth_bounds (y : Int) (m : Int)).2
   obtain ⟨hfz, hfwt, hdf, htz1, htz2⟩ := ho
   have hvalid : (DT.mk (y : Int) m d h mi s us).valid = true := by
     unfold DT.valid
@@ -35,18 +50,20 @@ theorem tok_iso_hms (cls : Char → CClass) [AsciiOK cls] (yf : Bool) (year cent
   have n7 : ¬ (2147483647 : Int) < us := by omega
   subst hus
   have hvalid' : (DT.mk (y : Int) m d h mi s 0).valid = true := by simpa using hvalid
-  rcases hS with rfl | rfl <;>
-  rcases off with _ | sp | _ | ⟨sp, neg, oh⟩ | ⟨sp, neg, oh, om⟩ | ⟨sp, neg, oh, om⟩
-  all_goals (try cases sp) <;> (try cases neg)
-  all_goals (try simp only [Off.Dom] at hoff)
-  all_goals (try (have boh : oh < 100 := by omega))
-  all_goals (try (have bom : om < 100 := by omega))
-  all_goals (try (have hok := offsetOk_hm oh om (by omega) (by omega)))
-  all_goals (try (have hok := offsetOk_hm oh 0 (by omega) (by omega)))
-  all_goals (try (by_cases hz1 : oh = 0)) <;> (try (by_cases hz2 : om = 0))
-  all_goals (try subst hz1) <;> (try subst hz2)
-  all_goals
-    psimpa [isoDateTokens, offTokens, offDescr, Off.seconds, spT, sgn, utcOrLocal, off_zero_iff, off_zero_iff', off_zero_iff'']
-  all_goals (try (by_cases hig : o.ignoretz = true <;> by_cases hu : ['U', 'T', 'C'] ∈ tznames <;> simp [hig, hu]))
+  psimpa [finishOf, afterValidate]
+
+theorem tok_iso_hms (cls : Char → CClass) [AsciiOK cls] (yf : Bool) (year century : Int) (o : Opts) (tznames : List Token)
+    (tzi : TzInfos) (ho : PlainOpts o tzi) (dflt : DT) (y m d h mi : Nat) (s us : Nat) (S : Token) (hS : S = ['T'] ∨ S = [' '])
+    (hv : (DT.mk y m d h mi s us).Valid) (off : Off) (hoff : off.Dom) (hus : us = 0) :
+    parseResult cls (Info.default false yf year century) o tznames tzi dflt
+      (isoDateTokens y m d S ++ [dtok [h / 10, h], [':'], dtok [mi / 10, mi], [':'], dtok [s / 10, s]] ++ offTokens off) =
+      .ok { dt := DT.mk y m d h mi s us, tz := if o.ignoretz then .naive else offDescr tznames off, tokens := none } := by
+  have hs : StrictOpts o tzi := ⟨ho.fz, ho.fwt, ho.tz1, ho.tz2⟩
+  have hlen : (isoDateTokens y m d S ++ [dtok [h / 10, h], [':'], dtok [mi / 10, mi], [':'], dtok [s / 10, s]]).length = 11 := by simp [isoDateTokens]
+  have := tok_theorem cls false yf year century o tznames tzi hs dflt (isoDateTokens y m d S ++ [dtok [h / 10, h], [':'], dtok [mi / 10, mi], [':'], dtok [s / 10, s]]) 11 hlen
+    _ _ _ (DT.mk y m d h mi s us) off hoff
+    (run_iso_hms cls yf year century y m d h mi s us S hS hv (offTokens off) (suf1_off false yf year century off))
+    rfl rfl (Or.inl rfl) (fin_iso_hms yf year century o tznames tzi ho dflt y m d h mi s us hv hus)
+  simpa [offZone] using this
 
 end PM
